@@ -27,4 +27,11 @@ CHECKS = {
         note="Bounded alphabets (<=16 fields, <=2 user header keys, rows<=17); files live on tmpfs; offset for header-less readers derived from file length.",
         technique=LAT + " of tables x headers x names x writer x reader, plus BFS over read histories on one handle",
     ),
+    "C02": dict(
+        engine="lattice+histories",
+        text="For a stored 4-field table (binary and text, little/big-endian, 1..6 rows) every scalar row, every row sequence up to the length bound in 5 container types, every slice over [-n-2,n+2] x steps, every ordered column subset in 3 containers, scalar and unknown names, through 14 access styles (keyword, bracket, chained, get_subset, convenience readers with split/reduce) is read on the real code and compared with Python indexing of the in-memory table; out-of-range selections must be rejected; plus all read pairs/triples on one open handle against the oracle.",
+        design_ref="DESIGN.md 3 C02",
+        note="One table layout (two byte orders), rows<=6, row lists <=4 long; negative members in row lists and empty lists unconstrained; rows x columns crossed pairwise, not fully.",
+        technique=LAT + " of row/column selections x access styles x delimiters against Python indexing, plus BFS over read histories",
+    ),
 }
